@@ -52,7 +52,8 @@ def _control(job):
         out["err"] = ""
         return out
     except BaseException as e:  # noqa: BLE001
-        return {"alive_before": False, "gone_after_kill_ms": -1, "wait_returned": False, "err": type(e).__name__}
+        return {"alive_before": False, "gone_after_kill_ms": -1, "wait_returned": False, "gone_after_wait_then_kill_ms": -1,
+                "pending_wait_returned": False, "err": type(e).__name__}
     finally:
         try:
             group.terminate(timeout=2)
